@@ -406,12 +406,16 @@ class DiskWorld:
         exc = None
         try:
             with self.disk:
+                target = self.disk.path(name)
+                if ev.get("pathlib"):
+                    import pathlib
+                    target = pathlib.Path(target)
                 if comp is not None:
-                    comp.save(self.disk.path(name))
+                    comp.save(target)
                 elif ev.get("via") == "save" and len(seqs) == 1:
-                    seqs[0].save(self.disk.path(name))
+                    seqs[0].save(target)
                 else:
-                    Sequence.sequences_save(seqs, self.disk.path(name))
+                    Sequence.sequences_save(seqs, target)
         except core.RunTimeout:
             raise
         except Exception as e:
@@ -458,7 +462,11 @@ class DiskWorld:
         seqs = None
         try:
             with self.disk:
-                seqs = Sequence.sequences_load(file_path=self.disk.path(name))
+                target = self.disk.path(name)
+                if ev.get("pathlib"):
+                    import pathlib
+                    target = pathlib.Path(target)
+                seqs = Sequence.sequences_load(file_path=target)
         except core.RunTimeout:
             raise
         except Exception as e:
@@ -619,11 +627,11 @@ def c12_run_one(seed, tier, index):
         if k == 0 or (rng.random() < 0.4) or not have:
             ev = {"op": "save", "name": rng.choice(names), "which": rng.randrange(len(pool)),
                   "plan": {"kind": "none", "buf": 8192} if lane == "baseline" else gen_plan(rng, "w", size_hint),
-                  "via": rng.choice(["save", "sequences_save", "sequences_save", "composition"])}
+                  "via": rng.choice(["save", "sequences_save", "sequences_save", "composition"]), "pathlib": rng.random() < 0.2}
         elif rng.random() < 0.08 and lane == "fault":
             ev = {"op": "torn_probe", "name": rng.choice(have), "cut": rng.randrange(1, 4096)}
         else:
-            ev = {"op": "load", "name": rng.choice(have),
+            ev = {"op": "load", "name": rng.choice(have), "pathlib": rng.random() < 0.2,
                   "plan": {"kind": "none", "buf": 8192} if lane == "baseline" else gen_plan(rng, "r", size_hint)}
         events.append(ev)
         viol = world.apply(ev, len(events) - 1)
